@@ -9,13 +9,13 @@ import (
 	"fmt"
 	"sort"
 
+	"github.com/algorand/avm-abi/apps"
 	"github.com/algorand/go-algorand/crypto"
 	"github.com/algorand/go-algorand/crypto/merklesignature"
 	"github.com/algorand/go-algorand/data/basics"
 	"github.com/algorand/go-algorand/data/transactions"
 	"github.com/algorand/go-algorand/data/transactions/logic"
 	"github.com/algorand/go-algorand/data/txntest"
-	"github.com/algorand/avm-abi/apps"
 	"github.com/algorand/go-algorand/ledger/eval"
 	"github.com/algorand/go-algorand/protocol"
 )
@@ -247,7 +247,7 @@ func hlNewGen(s *hlSim) *hlGen {
 func hlProfile(name string) map[string]int {
 	w := map[string]int{
 		"pay": 20, "payclose": 3, "paynew": 5, "payinvalid": 3,
-		"keyreg": 6,
+		"keyreg":  6,
 		"acreate": 4, "aoptin": 6, "axfer": 8, "aclose": 3, "afreeze": 2, "aclawback": 2, "adestroy": 2, "aconfig": 2, "ainvalid": 3,
 		"appcreate": 3, "appoptin": 4, "appcall": 14, "appclose": 2, "appclear": 1, "appdelete": 1, "appupdate": 1, "appfund": 3,
 		"box": 10, "inner": 4, "appfail": 3,
